@@ -69,9 +69,6 @@ class C08(Check):
                   suppress_health_check=list(HealthCheck), report_multiple_bugs=False)
         @given(gram, st.booleans(), st.data())
         def prop(g, with_ignore, data):
-            if runner.time_left() < 0:
-                res.truncated = True
-                return
             rich = any(r[1] == 'Tsame' for r in g.rules)
             if with_ignore and not rich:
                 g = g.copy(ignores=[(None, ('rx', ' +'))])
@@ -81,6 +78,8 @@ class C08(Check):
                 named = sut.fresh_name('vfc08_')
                 g = g.copy(header=named)
                 res.hist['named'] += 1
+            if runner.over_budget(res):
+                return
             desc = peg.render(g)
             mod, err = sut.compile_grammar(desc)
             if mod is None:
@@ -111,7 +110,10 @@ class C08(Check):
                                        args=list(args))
             if named:
                 sut.forget(named)
-        prop()
+        try:
+            prop()
+        except runner.StopTask:
+            pass
         return res
 
     def run_entry(self, res, g, mod, desc, label, rname, fn, short, len4, shiftable, env, args=None):
